@@ -74,6 +74,28 @@ def run(ctx):
             st2, y = guarded(navis.read_precomputed, os.path.join(d, str(x.id)), datatype='skeleton', info=os.path.join(d, 'info'))
             info = json.load(open(os.path.join(d, 'info')))
             follow.append(('sk', desc, dict(raw=list(raw), verts=verts, edges=edges, rwords=rwords, read=(st2, y), x=x, info=info, ix=ix)))
+            if ci % 3 == 0:
+                # the zip container written by navis holds the same bytes and the same info file as the folder
+                zp = os.path.join(tmp, 'sk%d.zip' % ci)
+                stz, _z = guarded(navis.write_precomputed, x, zp, radius=with_r)
+                ctx.count('precomputed:zip-writer')
+                if stz != 'ok':
+                    ctx.violation('write_precomputed to a zip archive raised', desc, _z)
+                else:
+                    with zipfile.ZipFile(zp) as zf:
+                        names = zf.namelist()
+                        zraw = zf.read(str(x.id)) if str(x.id) in names else None
+                        zinfo = json.loads(zf.read('info')) if 'info' in names else None
+                    if zraw != raw:
+                        ctx.violation('zip archive written by navis does not hold the bytes of the published format', desc, dict(members=names))
+                    elif zinfo != info:
+                        ctx.violation('info file in the zip archive differs from the one written to a folder (data type / scale / vertex attributes)', desc,
+                                      dict(zip=zinfo, folder=info))
+                    else:
+                        stz, yz = guarded(navis.read_precomputed, zp, datatype='skeleton')
+                        yz = yz[0] if stz == 'ok' and hasattr(yz, 'neurons') and len(yz) else yz
+                        if stz != 'ok' or not hasattr(yz, 'nodes') or (with_r and not np.allclose(np.sort(yz.nodes.radius.values), np.sort(x.nodes.radius.values.astype(np.float32)))):
+                            ctx.violation('skeleton read back from the zip archive written by navis lost its radii', desc, yz if stz != 'ok' else None)
             # truncation: every cut point of small files, sampled otherwise
             cuts = range(len(raw)) if len(raw) <= 200 and ci % 6 == 0 else [int(v) for v in rng.integers(0, len(raw), size=3)]
             for cut in cuts:
@@ -305,9 +327,45 @@ def containers(ctx, navis, rng, tmp):
                 u1 = np.asarray(y.units_xyz.to('nm').magnitude, dtype=float)
                 if np.abs(u0 - u1).max() > 1e-9 * u0.max():
                     ctx.violation('NRRD round trip does not restore the (per-axis) voxel size', desc, dict(written=u0.tolist(), read=u1.tolist()))
+                # a neuron read from NRRD (it carries the file's header), re-calibrated and written again: the new file holds the NEW voxel size
+                newu = [['3 nm', '3 nm', '3 nm'], ['8 nm', '16 nm', '80 nm'], ['1 um', '1 um', '2 um']][int(rng.integers(3))]
+                st, _ = guarded(setattr, y, 'units', newu if len(set(newu)) > 1 else newu[0])
+                p2 = os.path.join(tmp, 'v%d_b.nrrd' % ci)
+                st, _ = guarded(navis.write_nrrd, y, p2) if st == 'ok' else (st, _)
+                ctx.count('nrrd:rewrite')
+                if st != 'ok':
+                    ctx.violation('write_nrrd raised for a re-calibrated neuron read from NRRD', dict(desc, new_units=newu), _)
+                else:
+                    st, y2 = guarded(navis.read_nrrd, p2, output='voxels')
+                    w_ = np.asarray(y.units_xyz.to('nm').magnitude, dtype=float)
+                    hdr2 = nrrd.read_header(p2)
+                    sd_ = np.diag(np.asarray(hdr2['space directions'], dtype=float))
+                    su_ = [float(navis.config.ureg('1 ' + str(u_)).to('nm').magnitude) for u_ in hdr2['space units']]
+                    if st != 'ok' or np.abs(np.asarray(y2.units_xyz.to('nm').magnitude, dtype=float) - w_).max() > 1e-9 * w_.max() or np.abs(sd_ * np.array(su_) - w_).max() > 1e-9 * w_.max():
+                        ctx.violation('NRRD file written for a re-calibrated neuron does not hold its current voxel size', dict(desc, new_units=newu),
+                                      dict(header=(sd_ * np.array(su_)).tolist(), want=w_.tolist()))
+        # ---- NRRD: a sparse voxel-list neuron with non-integer values
+        nvx = int(rng.integers(3, 8))
+        vox = np.unique(rng.integers(0, 5, size=(nvx, 3)), axis=0)
+        vals = (rng.integers(1, 40, size=len(vox)) * 0.25).astype(float)
+        vl = navis.VoxelNeuron(vox, units='2 nm', name='vl', id=int(rng.integers(1, 999)))
+        st, _ = guarded(setattr, vl, 'values', vals)
+        p3 = os.path.join(tmp, 'vl%d.nrrd' % ci)
+        st, _ = guarded(navis.write_nrrd, vl, p3) if st == 'ok' else (st, _)
+        ctx.case(('nrrd-voxlist', vox.tobytes().hex()[:40], vals.tobytes().hex()[:40]), nontrivial=True)
+        ctx.count('nrrd:voxel-list')
+        dvl = dict(kind='nrrd-voxel-list', voxels=vox.tolist(), values=vals.tolist())
+        if st != 'ok':
+            ctx.violation('write_nrrd raised for a voxel-list neuron', dvl, _)
+        else:
+            data3, _h = nrrd.read(p3)
+            got3 = {tuple(int(t) for t in ix): float(data3[tuple(ix)]) for ix in np.argwhere(data3 != 0)}
+            want3 = {tuple(int(t) for t in v_): float(a_) for v_, a_ in zip(vox, vals)}
+            if got3 != want3:
+                ctx.violation('NRRD file (read with pynrrd) does not hold the voxel values that were written', dvl, dict(got=str(got3)[:300]))
         # ---- NRRD dotprops
         dp = navis.make_dotprops(rng.normal(size=(9, 3)) * 5, k=3)
-        dp.units = '1 um'
+        dp.units = str(rng.choice(['1 um', '8 nm', '0.5 um', '1 nm']))
         p = os.path.join(tmp, 'd%d.nrrd' % ci)
         st, _ = guarded(navis.write_nrrd, dp, p)
         ctx.case(('nrrd-dp', ci), nontrivial=True)
@@ -316,6 +374,8 @@ def containers(ctx, navis, rng, tmp):
             st, y = guarded(navis.read_nrrd, p, output='dotprops')
             if st != 'ok' or not np.allclose(np.asarray(y.points), np.asarray(dp.points)) or not np.allclose(np.abs((np.asarray(y.vect) * np.asarray(dp.vect)).sum(axis=1)), 1, atol=1e-5):
                 ctx.violation('NRRD dotprops round trip does not reproduce points / tangents', dict(kind='nrrd-dotprops'), y if st != 'ok' else None)
+            elif abs(float(y.units.to('nm').magnitude) - float(dp.units.to('nm').magnitude)) > 1e-9 * float(dp.units.to('nm').magnitude):
+                ctx.violation('NRRD dotprops round trip does not restore the units', dict(kind='nrrd-dotprops', units=str(dp.units)), dict(read=str(y.units)))
         else:
             ctx.violation('write_nrrd(dotprops) raised', dict(kind='nrrd-dotprops'), _)
         # ---- JSON and HDF5 for skeletons with connectors
@@ -349,6 +409,26 @@ def containers(ctx, navis, rng, tmp):
             with h5py.File(p, 'r') as h:
                 if str(x.id) not in h:
                     ctx.violation('HDF5 file (read with h5py) has no group for the neuron id', desc, list(h.keys()))
+        # HDF5 writer options: serialized and/or raw, connectors as an annotation; readers with default and explicit annotation selection
+        if cn is not None:
+            for wkw in (dict(serialized=True, raw=False), dict(serialized=True, raw=True, annotations='connectors'), dict(serialized=False, raw=True, annotations='connectors')):
+                for rkw in (dict(), dict(prefer_raw=True), dict(prefer_raw=True, annotations=['connectors'])):
+                    p2 = os.path.join(tmp, 'h%d_%d.h5' % (ci, len(str(wkw)) + 7 * len(str(rkw))))
+                    if os.path.exists(p2):
+                        os.remove(p2)
+                    st, _ = guarded(navis.write_h5, x, p2, **wkw)
+                    dd = dict(desc, write=wkw, read=rkw)
+                    ctx.count('hdf5:options')
+                    if st != 'ok':
+                        ctx.violation('write_h5 raised', dd, _)
+                        continue
+                    st, y = guarded(navis.read_h5, p2, read='skeleton', parallel=False, **rkw)
+                    y = y[0] if st == 'ok' and hasattr(y, 'neurons') and len(y) else y
+                    if st != 'ok' or not hasattr(y, 'nodes') or not _same_nodes(x, y) or str(y.id) != str(x.id):
+                        ctx.violation('HDF5 round trip does not reproduce nodes / id', dd, y if st != 'ok' else None)
+                    elif y.connectors is None or sorted(zip(y.connectors.connector_id, y.connectors.node_id)) != sorted(zip(x.connectors.connector_id, x.connectors.node_id)):
+                        ctx.violation('HDF5 round trip does not reproduce the connectors that were written', dd,
+                                      None if y.connectors is None else y.connectors.to_dict('list'))
         # ---- mesh files
         nv = int(rng.integers(4, 10))
         verts = (rng.normal(size=(nv, 3)) * 10).astype(np.float32).astype(float)
